@@ -133,6 +133,32 @@ def rule_growable(rep, fb, floor=4):
                     if d[3] is not None and find_all((d[3],), lambda n: n[0] == "call" and n[1][0] == "fn" and n[1][1] == "kernel::malloc"):
                         fresh = True
             r.check(fresh, "GrowableBuffer::%s:ptr" % f["name"], "%s:%d" % (f["file"], a[-1]), "GrowableBuffer::%s points ptr_ at storage that is not freshly allocated" % f["name"], detail="ptr_ = kernel::malloc(...)")
+        # length_ may only go down together with an unconditional replacement of ptr_ in the same block
+        # (otherwise later appends overwrite elements that an earlier snapshot still shares)
+        if f["kind"] != "CXXConstructorDecl":
+            from .callsites import each_block
+            def onblock(stmts, f=f):
+                for s_ in stmts:
+                    if s_[0] == "assign" and s_[1] == ("member", ("this",), "length_"):
+                        repl = any(x[0] == "assign" and x[1] == ("member", ("this",), "ptr_") for x in stmts)
+                        if not repl and f["name"] == "set_length":
+                            # allowed when every caller applies it to a buffer it has just created (no snapshot can exist yet)
+                            callers_ok, ncall = True, 0
+                            for g in fb.lib_funcs():
+                                for c in find_all(g["body"], lambda n: n[0] == "mcall" and n[1] == "set_length"):
+                                    ncall += 1
+                                    recv = c[3]
+                                    fresh = False
+                                    if recv[0] == "var":
+                                        for d in find_all(g["body"], lambda n: n[0] == "decl" and len(n) == 5 and n[1] == recv[1]):
+                                            if d[3] is not None and find_all((d[3],), lambda n: n[0] == "call" and n[1][0] == "fn" and isinstance(n[1][1], str) and n[1][1].split("::")[-1] in ("empty", "full", "arange")):
+                                                fresh = True
+                                    callers_ok = callers_ok and fresh
+                            repl = callers_ok and ncall > 0
+                        r.check(repl, "GrowableBuffer::%s:length-reset" % f["name"], "%s:%d" % (f["file"], s_[-1]),
+                                "GrowableBuffer::%s resets length_ without unconditionally replacing ptr_: appends after it overwrite storage that earlier snapshots share" % f["name"],
+                                detail="length_ reset together with ptr_ = fresh storage")
+            each_block(f["body"], onblock)
         for c in find_all(f["body"], lambda n: n[0] == "call" and n[1][0] == "fn" and (n[1][1] or "").endswith("memcpy")):
             dst = c[2][0]
             tomember = bool(find_all((dst,), lambda n: n == ("member", ("this",), "ptr_")))
